@@ -145,3 +145,26 @@ Proof.
   - c01_solve.
   - c01_solve.
 Qed.
+
+(* ---------------------------------------------------------------- audit items: root of a negative operand, the abs(x, a) wrapper *)
+(* root(q, a, n) for a < 0 and odd n: q <= 0 is the root truncated towards 0: (q-1)^n < a <= q^n, flag = exactness *)
+Lemma root_neg_spec a n q ex : a < 0 -> in_u32 n -> Z.odd n = true -> root a n = (q, ex) ->
+  q <= 0 /\ (q - 1) ^ n < a <= q ^ n /\ (ex = true <-> q ^ n = a).
+Proof.
+  intros Ha Hn Ho H. unfold root, mpz_root, u32_to_u64 in H. inversion H; subst; clear H.
+  assert (Hn1 : 1 <= n) by (unfold in_u32 in Hn; destruct (Z.eq_dec n 0) as [-> | ]; [discriminate | lia]).
+  rewrite (Z.sgn_neg a) by lia. rewrite (Z.abs_neq a) by lia.
+  pose proof (iroot_spec (- a) n ltac:(lia) Hn1) as [Hq [Hlo Hhi]]. set (r := iroot (- a) n) in *.
+  assert (Hodd : Z.Odd n) by (apply Z.odd_spec; exact Ho).
+  replace (-1 * r) with (- r) by lia. replace (- r - 1) with (- (r + 1)) by lia. rewrite !Z.pow_opp_odd by exact Hodd.
+  split; [lia |]. split; [lia |]. split; intros E; [apply Z.eqb_eq in E | apply Z.eqb_eq]; exact E.
+Qed.
+Definition Audit_exact : Prop :=
+  (forall a n q ex, a < 0 -> in_u32 n -> Z.odd n = true -> root a n = (q, ex) ->
+     q <= 0 /\ (q - 1) ^ n < a <= q ^ n /\ (ex = true <-> q ^ n = a)) /\
+  (forall x a, dom_abs2 x a = Z.abs a).
+Lemma audit_exact : Audit_exact.
+Proof.
+  split; [exact root_neg_spec |]. intros x a. unfold dom_abs2, assign, logcpy, abs_v, sign_f, priv_sign, mpz_sgn, opNeg, mpz_neg.
+  destruct (Z.leb_spec 0 (Z.sgn a)); lia.
+Qed.
